@@ -565,4 +565,115 @@ theorem descent_lowers (w : Mat) (i j : Int) (n : Nat) (hb : w.inBox i j = true)
           obtain ⟨g1, g2⟩ := get_nonneg w (i - 1) j (by omega)
           exact ⟨g1, by omega⟩
 
+/-! ## 5. following the field reaches the ocean -/
+
+/-- every positive in-box cell satisfies the hypothesis of `descent_lowers` -/
+def Descending (w : Mat) : Prop :=
+  ∀ (i j : Int) (n : Nat), w.inBox i j = true → w.val i j = (n : Int) + 1 →
+    (∀ x ∈ nbrs w (-1) i j, x < 0 ∨ (n : Int) ≤ x) ∧ (∃ x ∈ nbrs w (-1) i j, x = (n : Int))
+
+theorem follow_succ (s : VSign) (w : Mat) (k : Nat) (i j : Int) :
+    follow s w (k + 1) (i, j) = (i, j) :: follow s w k (nextCell s w i j) := rfl
+
+theorem follow_reaches_ocean (w : Mat) (hw : Descending w) (n : Nat) (i j : Int)
+    (hb : w.inBox i j = true) (hv : w.val i j = (n : Int)) :
+    (follow .grid w n (i, j)).length = n + 1 ∧
+    (∀ c ∈ follow .grid w n (i, j), w.inBox c.1 c.2 = true ∧ w.val c.1 c.2 ≠ -2) ∧
+    (∀ t : Nat, t ≤ n → ∃ c, (follow .grid w n (i, j))[t]? = some c ∧
+      w.inBox c.1 c.2 = true ∧ w.val c.1 c.2 = (n : Int) - (t : Int)) := by
+  induction n generalizing i j with
+  | zero =>
+    refine ⟨rfl, ?_, ?_⟩
+    · intro c hc
+      have : c = (i, j) := by simpa [follow] using hc
+      subst this
+      exact ⟨hb, by simp only; omega⟩
+    · intro t ht
+      have : t = 0 := by omega
+      subst this
+      exact ⟨(i, j), rfl, hb, by simp only; omega⟩
+  | succ n ih =>
+    obtain ⟨hlow, hex⟩ := hw i j n hb (by rw [hv]; push_cast; rfl)
+    obtain ⟨_, hnext, hb2, hv2⟩ := descent_lowers w i j n hb (by rw [hv]; push_cast; rfl) hlow hex
+    rw [follow_succ, hnext]
+    obtain ⟨ih1, ih2, ih3⟩ := ih _ _ hb2 hv2
+    refine ⟨?_, ?_, ?_⟩
+    · rw [List.length_cons, ih1]
+    · intro c hc
+      rcases List.mem_cons.1 hc with rfl | hc
+      · exact ⟨hb, by simp only; omega⟩
+      · exact ih2 c hc
+    · intro t ht
+      cases t with
+      | zero =>
+        exact ⟨(i, j), rfl, hb, by simp only; omega⟩
+      | succ t =>
+        obtain ⟨c, hc1, hc2, hc3⟩ := ih3 t (by omega)
+        refine ⟨c, ?_, hc2, ?_⟩
+        · rw [List.getElem?_cons_succ]; exact hc1
+        · rw [hc3]; push_cast; omega
+
+/-! ## 6. bridge: every iterate of the dilation is `Descending` -/
+
+/-- reading the `k`-th iterate with `-1` outside the box -/
+theorem inv_get_neg1 (m w : Mat) (k : Nat) (hinv : Inv m w k) (a b : Int) :
+    (0 ≤ w.get (-1) a b → ∃ n : Nat, w.get (-1) a b = (n : Int) ∧ n ≤ k ∧ IsDist m n a b) ∧
+    (∀ n : Nat, n ≤ k → IsDist m n a b → w.get (-1) a b = (n : Int)) := by
+  obtain ⟨hr, hc, hall⟩ := hinv
+  have hbox := inBox_congr w m hr hc a b
+  constructor
+  · intro h0
+    obtain ⟨g1, g2⟩ := get_nonneg w a b h0
+    have hb : m.inBox a b = true := by rw [← hbox]; exact g1
+    obtain ⟨h1, h2⟩ := hall a b hb
+    have hv : m.val a b ≠ -2 := by
+      intro h
+      have := h1 h
+      omega
+    obtain ⟨h3, _, _⟩ := h2 hv
+    obtain ⟨n, hn⟩ := Int.eq_ofNat_of_zero_le h0
+    exact ⟨n, hn, (h3 n).1 (by omega)⟩
+  · intro n hn hd
+    obtain ⟨hb, hv⟩ := reach_inBox m n a b hd.1
+    have hwb : w.inBox a b = true := by rw [hbox]; exact hb
+    rw [get_of_inBox w (-1) a b hwb]
+    exact (((hall a b hb).2 hv).1 n).2 ⟨hn, hd⟩
+
+theorem inv_descending (m w : Mat) (k : Nat) (hinv : Inv m w k) : Descending w := by
+  intro i j n hb hv
+  have hinv0 := hinv
+  obtain ⟨hr, hc, hall⟩ := hinv
+  have hbm : m.inBox i j = true := by rw [← inBox_congr w m hr hc]; exact hb
+  obtain ⟨h1, h2⟩ := hall i j hbm
+  have hvm : m.val i j ≠ -2 := by
+    intro h
+    have := h1 h
+    omega
+  obtain ⟨h3, _, _⟩ := h2 hvm
+  obtain ⟨hle, hd⟩ := (h3 (n + 1)).1 (by rw [hv]; push_cast; rfl)
+  have part1 : ∀ x ∈ nbrs w (-1) i j, x < 0 ∨ (n : Int) ≤ x := by
+    intro x hx
+    by_cases h0 : 0 ≤ x
+    · right
+      obtain ⟨a, b, hadj, hxa⟩ := mem_nbrs_adj w (-1) i j x hx
+      rw [hxa] at h0
+      obtain ⟨n', hn', _, hd'⟩ := (inv_get_neg1 m w k hinv0 a b).1 h0
+      have hreach : Reach m (n' + 1) i j := (reach_succ_iff m n' i j).2 ⟨hbm, hvm, a, b, hadj, hd'.1⟩
+      have : ¬ n' + 1 < n + 1 := fun hlt => hd.2 (n' + 1) hlt hreach
+      rw [hxa, hn']
+      omega
+    · left; omega
+  refine ⟨part1, ?_⟩
+  obtain ⟨_, _, a, b, hadj, hra⟩ := (reach_succ_iff m n i j).1 hd.1
+  obtain ⟨n', hle', hd'⟩ := reach_exists_dist m a b n hra
+  have hget := (inv_get_neg1 m w k hinv0 a b).2 n' (by omega) hd'
+  have hmem := adj_mem_nbrs w (-1) i j a b hadj
+  refine ⟨w.get (-1) a b, hmem, ?_⟩
+  rcases part1 _ hmem with h | h
+  · omega
+  · omega
+
+theorem dilateIter_descending (m : Mat) (hm : Init m) (k : Nat) : Descending (dilateIter m k) :=
+  inv_descending m (dilateIter m k) k (inv_iter m hm k)
+
 end C12BFS
